@@ -97,6 +97,19 @@ pub fn compare_restore(
             ),
             step,
         );
+        fnd(
+            out,
+            "C09",
+            "panic",
+            p.location(),
+            format!(
+                "the server panicked while restarting from its journal (cut at byte {}) at {}: {}",
+                cut.cut_len,
+                p.location(),
+                p.message
+            ),
+            step,
+        );
         return;
     }
     let Some(info) = &world.last_restore else {
